@@ -489,6 +489,21 @@ CORPUS = [
      "(RAssign (TSig 2) (XIte (XEq (XIn 2) (XConst 0%Z)) (XIn 3) (XIte (XEq (XIn 2) (XConst 1%Z)) (XIn 3) (XIte (XEq (XIn 2) (XConst 2%Z)) (XIn 3) (XSig 2)))))"),
     ("clocked+h_forelse", ["self.r0 <<= h_forelse(self.x, self.i, self.r0)"],
      "(RAssign (TSig 2) (XIte (XEq (XIn 2) (XConst 0%Z)) (XAdd 2%N (XIn 3) (XConst 0%Z)) (XIte (XEq (XIn 2) (XConst 1%Z)) (XAdd 2%N (XIn 3) (XConst 1%Z)) (XIte (XEq (XIn 2) (XConst 2%Z)) (XAdd 2%N (XIn 3) (XConst 2%Z)) (XSig 2)))))"),
+    # a value taken from a variable is a SNAPSHOT: a later `@=` of the variable must not change it (bool() of a bool
+    # variable is a cast the compiler removes; removing it must not turn the value into an alias of the variable)
+    ("clocked", ["was = bool(vb)", "vb @= self.a", "self.q0 <<= was"],
+     "(RSeq (RAssign (TVar 2) (XVar 1)) (RSeq (RAssign (TVar 1) (XIn 0)) (RAssign (TSig 0) (XVar 2))))"),
+    ("clocked", ["was = bool(vb)", "if self.b:", "    vb @= self.a", "self.q0 <<= was", "self.q1 ^= vb"],
+     "(RSeq (RAssign (TVar 2) (XVar 1)) (RSeq (RIf (XIn 1) (RAssign (TVar 1) (XIn 0)) RSkip) (RSeq (RAssign (TSig 0) (XVar 2)) (RAssign (TPush 1) (XVar 1)))))"),
+    ("clocked", ["t = v0 + 1", "v0 @= self.x", "self.r0 <<= t"],
+     "(RSeq (RAssign (TVar 2) (XAdd 2%N (XVar 0) (XConst 1%Z))) (RSeq (RAssign (TVar 0) (XIn 2)) (RAssign (TSig 2) (XVar 2))))"),
+    # literals assigned to ONE target in several branches: each branch keeps its own literal (push, variable, next)
+    ("clocked", ["if self.a:", "    self.q1 ^= True", "else:", "    self.q1 ^= False"],
+     "(RIf (XIn 0) (RAssign (TPush 1) (XConst 1%Z)) (RAssign (TPush 1) (XConst 0%Z)))"),
+    ("clocked", ["if self.a:", "    self.q1 ^= False", "elif self.b:", "    self.q1 ^= True", "self.q0 <<= self.q1"],
+     "(RSeq (RIf (XIn 0) (RAssign (TPush 1) (XConst 0%Z)) (RIf (XIn 1) (RAssign (TPush 1) (XConst 1%Z)) RSkip)) (RAssign (TSig 0) (XSig 1)))"),
+    ("clocked", ["if self.a:", "    v0 @= 1", "else:", "    v0 @= 2", "self.r0 <<= v0"],
+     "(RSeq (RIf (XIn 0) (RAssign (TVar 0) (XConst 1%Z)) (RAssign (TVar 0) (XConst 2%Z))) (RAssign (TSig 2) (XVar 0)))"),
     ("conc", ["self.q0 <<= self.a & self.b", "self.r0 <<= self.x + self.i", "self.w0 <<= self.i @ self.x"],
      "(RSeq (RAssign (TSig 0) (XAnd (XIn 0) (XIn 1))) (RSeq (RAssign (TSig 2) (XAdd 2%N (XIn 2) (XIn 3))) (RAssign (TSig 3) (XConcat 2%N (XIn 3) (XIn 2)))))"),
 ]
@@ -530,6 +545,7 @@ def run(ck: common.Check, replay=None):
                    imports="From Cohdl Require Import Models.SeqRef.", clk="clk" if mode == "clocked" else None,
                    alphabet_overrides={"i": "[VV KUns 2%N 0%Z; VV KUns 2%N 1%Z; VV KUns 2%N 3%Z]"} if ck.tier == "quick" else None,
                    meta={"mode": mode, "source": src, "ref": ref})
+        c.uni = uni          # exported for c03_lower (declarations of the objects of this case)
         cases.append(c)
         ck.hist("modes", mode)
     X.run_cases(ck, cases, "compiled context and the documented assignment semantics differ on an input sequence",
@@ -541,3 +557,7 @@ def run(ck: common.Check, replay=None):
     ck.assumptions += ["bodies quantifier sampled; input sequences quantifier proved per body",
                        "an unclocked context is evaluated once at power-up with all inputs zero (VHDL initialisation), in design and reference alike",
                        "combinational contexts do not read their own outputs (generator restriction)"]
+    # all-programs part: emitted design == Models/SeqLower.lower(body) for every case inside its grammar
+    import c03_lower
+    import sys
+    c03_lower.run_extra(ck, cases, sys.modules[__name__])
